@@ -42,7 +42,7 @@ ALPHABET = {
     'type': ['ping', 'scte35', 'ping,scte35'],
     'start': ['zero', 'boundary-1', 'boundary', 'boundary+1', 'mid'],
     'interval': ['quarter', 'half', 'seg', 'seg+1', '3seg'],
-    'count': ['0', '1', '2', '3', '7'],
+    'count': ['0', '1', '2', '3', '7', '600'],
     'timescale': ['1', '100', '90000', 'track', '7'],
     'version': ['0', '1'],
     'inband': ['1', '0'],
@@ -170,6 +170,8 @@ def execute(item):
     acc.count('evaluations')
     acc.count('transitions')
     acc.outcome(('manifest', r.status))
+    if r.status >= 500 or r.exc:
+        bad(f'manifest-5xx|{W.crash_signature(r.exc)}', f'the manifest answered {r.status}')
     if r.status != 200:
         return acc
     try:
@@ -232,6 +234,9 @@ def execute(item):
         acc.count('evaluations')
         acc.count('transitions')
         acc.state((stream, template, base, mode, phase, tuple(sorted(vec.items())), seg['n']))
+        if sr.status >= 500 or sr.exc:
+            # the segment whose interval contains scheduled events is not delivered at all
+            bad(f'segment-5xx|{W.crash_signature(sr.exc)}', f'$Number$={seg["n"]} answered {sr.status}')
         if sr.status != 200:
             acc.outcome(('segment', sr.status))
             acc.count(f'segment_status_{sr.status}')
@@ -499,6 +504,11 @@ def plan(tier):
                     # presentation times whose 90 kHz PTS crosses 2^32 (47 722 s) and wraps at 2^33 (95 444 s)
                     for phase in (47722.0 - 600 + 30, 95443.7 - 600 + 30):
                         items.append(('run', (stream, 'live', v, phase)))
+    # long schedules: event ids beyond the 8-bit fields of the SCTE-35 avail counters (in-band: a live window that
+    # holds events 480..599; out-of-band: the manifest lists all 600)
+    for t in ALPHABET['type']:
+        items.append(('run', ('bbb', 'live', {'type': t, 'count': '600', 'interval': 'quarter'}, 0)))
+        items.append(('run', ('bbb', 'vod', {'type': t, 'count': '600', 'inband': '0'}, 0)))
     # out-of-band schedules need three deviations from the defaults (type, inband=0, a count) before the manifest lists
     # anything: they are enumerated in both tiers
     for t in ALPHABET['type']:
